@@ -37,6 +37,8 @@ TASK: produce THREE INDEPENDENT changes (numbered 1, 2, 3), each of which alone 
 4. Save the change alone: `git -C {wt} diff -- src > /tmp/{pid}{n}-change-k.patch`.
 When all three are done: `git -C {wt} checkout -- src` (leave the tree clean, with the three untracked demo files in tests/), and remove the build output (`rm -rf {wt}/target`).
 
+STYLE for this round: prefer the small classic slips over elaborate "hardenings": a wrong constant or enum value, swapped arguments or fields, a copy-paste of the neighbouring line left unadapted, big- versus little-endian, signed versus unsigned, `<` for `<=`, `&&` for `||`, a mask one bit too wide or too narrow, an index starting at 1, a field read twice or not at all, the wrong variable of two with similar names. At least two of your three changes must be of this kind, and they must still need a specific input to show.
+
 These ideas have ALREADY been used by others for this property — do something different from all of them: {' | '.join(used) if used else '(none)'}
 
 REPORT (your final message), for each k: (a) the diff, (b) the demo path and exact command (with RUSTFLAGS if needed), (c) two or three sentences: why it breaks the property and the specific condition needed, (d) confirmation of the runs (unit tests 39 pass with the change; demo fails with it; demo passes on the clean tree).
